@@ -16,23 +16,27 @@
   (A) mirror + theorem, universal over ALL words of the class, ALL addresses < 2^64 - 4 and ALL states:
         add/sub (immediate) incl. MOV (to/from SP)          lift_correct_addSubImm     [adds: all of NZCV]
         add/sub (shifted register: lsl/lsr/asr, 32/64 bit)  lift_correct_addSubShift   [adds: all of NZCV]
-        subs (both forms): result, N, Z, V agree; the IL's `c` is proved to be the NEGATION of the architectural
-            carry (`AgreesBorrow`) — this is the recorded finding C03/*/addsub_*/*op1_S1*/c, not a gap of the proof
-        mov (register), mov (wide / inverted wide immediate), nop
-                                                             lift_correct_movReg / movWide / nop
+        add/sub (extended register: UXTB…SXTX, #0…#4, Rn|SP, Rd|SP, the `lsl` print form)
+                                                             lift_correct_addSubExt     [adds: all of NZCV]
+        subs (all three forms): result, N, Z, V agree; the IL's `c` is proved to be the NEGATION of the
+            architectural carry (`AgreesBorrow`) — this is the recorded finding C03/*/subs/c, not a gap of the proof
+        mov (register), mov (wide / inverted wide immediate), mov (bitmask immediate, `DecodeBitMasks`), nop
+                                                             lift_correct_movReg / movWide / movBitmask / nop
+        ldr/ldrb/ldrh/ldrsb/ldrsh/ldrsw (integer; unsigned offset | unscaled | post-index | pre-index; base SP or Xn,
+            destination XZR discards; LE and BE data)        lift_correct_ldrImm
+        str/strb/strh (same addressing modes)                lift_correct_strImm
+            both for every state in which the pseudocode completes (`A64.step w s = .ok s'`: no Data Abort, not the
+            CONSTRAINED UNPREDICTABLE write-back with base = transfer register) and the access does not wrap around 2^64
+            (falcon's memory panics there: C07/C08)
         b, bl                                                lift_correct_b_bl
         br, blr, ret                                         lift_correct_br_blr_ret
-  (A-partial) integer loads with immediate addressing (ldr/ldrb/ldrh/ldrsb/ldrsh/ldrsw; unsigned offset, unscaled,
-        post-index, pre-index; both endiannesses): `load_block_correct_partial` proves the emitted block shape against
-        the pseudocode body `A64.ldstInt` for all registers/offsets/sizes/states that neither fault nor wrap; the glue
-        "`lift w` of a word of the class IS that block, `A64.step w` IS that body" is checked by the differential
-        (MIRROR-SAME on every case), not proved.   Full statement that is NOT proved:
-          ∀ w of class ldst_uimm/ldst_imm9 (V=0, load), lift w addr = some r → A64.step w s = .ok s' → Agrees r σ w s.
-  (C) differential only (`unproved_classes`): add/sub (extended register), mov (bitmask immediate), stores,
-        register-offset and literal loads, pairs, load-acquire/store-release, STLUR, SIMD&FP loads/stores, prefetch,
-        b.cond, cbz/cbnz, tbz/tbnz.  (b.cond/cbz/tbz are in the mirror and compared syntactically; no theorem.)
+        b.cond (all 16 condition codes via `ConditionHolds`) lift_correct_b_cond
+        cbz/cbnz, tbz/tbnz                                   lift_correct_cbz_cbnz / lift_correct_tbz_tbnz
+  (C) differential only (`unproved_classes`): register-offset and literal loads, pairs (ldp/stp/ldpsw/ldnp/stnp),
+        load-acquire/store-release, STLUR, SIMD&FP loads/stores, prefetch.
+  No theorem uses an axiom beyond propext / Classical.choice / Quot.sound (no `bv_decide` axioms).
 -/
-import FalconProofs.C03.Load
+import FalconProofs.C03.AddSubExt2
 
 namespace Falcon.C03
 open Falcon Falcon.Const Falcon.A64Lift
@@ -107,7 +111,45 @@ theorem lift_correct_br_blr_ret (w : BitVec 32) (addr : Nat) (r : BTR) (hc : fld
     (hpc : s.pc = BitVec.ofNat 64 addr) (haddr : addr + 4 < 2 ^ 64) : Agrees r σ w s :=
   brReg_agrees w addr r hc h σ s ha hpc haddr
 
-/-! ### (A-partial) integer loads, immediate addressing modes -/
+/-- ADD/ADDS/SUB/SUBS (extended register), `sf op S 01011 00 1 Rm option imm3 Rn Rd`: `ExtendReg` (all eight extend
+    types, shift 0…4), register 31 = SP for Rn and (S = 0) Rd, XZR/WZR for Rm -/
+theorem lift_correct_addSubExt (w : BitVec 32) (addr : Nat) (r : BTR) (hc : fld w 28 24 = 0b01011)
+    (h21 : bit w 21 = true) (h : lift w addr = some r) (σ : State) (s : A64.St) (ha : Abs σ s)
+    (hpc : s.pc = BitVec.ofNat 64 addr) (haddr : addr + 4 < 2 ^ 64) :
+    if bit w 30 = true ∧ bit w 29 = true then AgreesBorrow r σ w s else Agrees r σ w s :=
+  addSubExt_agrees w addr r hc h21 h σ s ha hpc haddr
+
+/-- `ExtendReg(m, type, shift, N)` is "extend the low bits, then shift left" (the form falcon emits) -/
+theorem extendReg_spec {N : Nat} (hN : N = 32 ∨ N = 64) (x : BitVec N) (option sh : Nat) (hs : sh ≤ 4) :
+    A64.extendReg x option sh = extG x option sh :=
+  extendReg_eq hN x option sh hs
+
+/-- MOV (bitmask immediate): every word of the logical (immediate) class the mirror accepts (ORR, Rn = 31, not
+    MoveWidePreferred); the constant is `DecodeBitMasks(N, imms, immr)`, destination 31 = SP -/
+theorem lift_correct_movBitmask (w : BitVec 32) (addr : Nat) (r : BTR) (hc : fld w 28 23 = 0b100100)
+    (h : lift w addr = some r) (σ : State) (s : A64.St) (ha : Abs σ s)
+    (hpc : s.pc = BitVec.ofNat 64 addr) (haddr : addr + 4 < 2 ^ 64) : Agrees r σ w s :=
+  movBitmask_agrees w addr r hc h σ s ha hpc haddr
+
+/-- B.cond (`0101010 0 imm19 0 cond`): the two guarded successors select the pc `ConditionHolds(cond)` selects -/
+theorem lift_correct_b_cond (w : BitVec 32) (addr : Nat) (r : BTR) (hc : fld w 31 25 = 0b0101010)
+    (h : lift w addr = some r) (σ : State) (s : A64.St) (ha : Abs σ s)
+    (hpc : s.pc = BitVec.ofNat 64 addr) (haddr : addr + 4 < 2 ^ 64) : Agrees r σ w s :=
+  bCond_agrees w addr r hc h σ s ha hpc haddr
+
+/-- CBZ/CBNZ (`sf 011010 op imm19 Rt`), 32- and 64-bit operand, Rt = 31 reads zero -/
+theorem lift_correct_cbz_cbnz (w : BitVec 32) (addr : Nat) (r : BTR) (hc : fld w 30 25 = 0b011010)
+    (h : lift w addr = some r) (σ : State) (s : A64.St) (ha : Abs σ s)
+    (hpc : s.pc = BitVec.ofNat 64 addr) (haddr : addr + 4 < 2 ^ 64) : Agrees r σ w s :=
+  cbz_agrees w addr r hc h σ s ha hpc haddr
+
+/-- TBZ/TBNZ (`b5 011011 op b40 imm14 Rt`), every bit position 0…63 -/
+theorem lift_correct_tbz_tbnz (w : BitVec 32) (addr : Nat) (r : BTR) (hc : fld w 30 25 = 0b011011)
+    (h : lift w addr = some r) (σ : State) (s : A64.St) (ha : Abs σ s)
+    (hpc : s.pc = BitVec.ofNat 64 addr) (haddr : addr + 4 < 2 ^ 64) : Agrees r σ w s :=
+  tbz_agrees w addr r hc h σ s ha hpc haddr
+
+/-! ### integer loads and stores, immediate addressing modes -/
 
 /-- `Mem[address, size]` of the specification (per-byte 64-bit address arithmetic, `BigEndian()`) returns the constant
     the IL load builds (`readBytes` + `constOfBytes` in the memory's endianness) -/
@@ -118,24 +160,37 @@ theorem mem_read_agrees (s : A64.St) (σ : State) (hm : σ.mem = s.mem)
     ∃ bs, σ.mem.readBytes a.toNat k = some bs ∧ constOfBytes σ.endian bs = ofBV data :=
   memRead_bytes s σ hm he a k hw data h
 
-/-- the block `load temp, [addr-expr]; Rt := (sign-)extended temp; (write-back)` against `A64.ldstInt … .load …`:
-    mode 4 = unsigned offset, 0 = unscaled, 1 = post-index, 3 = pre-index; n = 31 is SP, t = 31 discards;
-    CONSTRAINED UNPREDICTABLE (write-back with n = t ≠ 31) is excluded by `hs` (the body then is not `.ok`) -/
-theorem load_block_correct_partial (σ : State) (s : A64.St) (ha : Abs σ s) (addr mode n t off sz regsize : Nat)
-    (signed : Bool) (hk : sz = 1 ∨ sz = 2 ∨ sz = 4 ∨ sz = 8) (hreg : regsize = 32 ∨ regsize = 64)
-    (hkr : 8 * sz ≤ regsize) (hsr : signed = true → 8 * sz < regsize)
-    (hn : n < 32) (ht : t < 32) (hoff : off < 2 ^ 64) (hmode : mode = 0 ∨ mode = 1 ∨ mode = 3 ∨ mode = 4)
+/-- `Mem[address, size] = value` of the specification leaves the memory the IL store leaves
+    (`ByteMem.write` of `bytesOf` in the memory's endianness), LE and BE -/
+theorem mem_write_agrees (s : A64.St) (a : BitVec 64) (k : Nat) (val : BitVec (8 * k)) (s' : A64.St)
+    (hw : a.toNat + k ≤ 2 ^ 64) (h : A64.memWrite s a k val = some s') :
+    s' = { s with mem := s.mem.write a.toNat (bytesOf (if s.big then Endian.big else Endian.little) (ofBV val)) } :=
+  memWrite_mem s a k val s' hw h
+
+/-- LDR/LDRB/LDRH/LDRSB/LDRSH/LDRSW (integer), immediate forms (`ImmForm w`: unsigned offset, unscaled, post-index,
+    pre-index): for every word of the class that decodes to a load, every state in which the pseudocode completes
+    (`hs`) and the access `[immAddr w s, +2^size)` does not wrap: the lifted block ends in a state holding `s'` at `s'.pc` -/
+theorem lift_correct_ldrImm (w : BitVec 32) (addr : Nat) (r : BTR) (hc : fld w 29 27 = 0b111) (h25 : bit w 25 = false)
+    (h26 : bit w 26 = false) (himm : ImmForm w) (sg : Bool) (rs : Nat)
+    (hdec : A64.decodeSizeOpc (fld w 31 30) (fld w 23 22) = some (.load, sg, rs))
+    (h : lift w addr = some r) (σ : State) (s : A64.St) (ha : Abs σ s)
     (hpc : s.pc = BitVec.ofNat 64 addr) (haddr : addr + 4 < 2 ^ 64)
-    (s' : A64.St)
-    (hs : A64.ldstInt s .load signed sz regsize n t (BitVec.ofNat 64 off)
-            (decide (mode = 1 ∨ mode = 3)) (decide (mode = 1)) = .ok s')
-    (hnowrap : (if mode = 1 then A64.XSP s n 64 else A64.XSP s n 64 + BitVec.ofNat 64 off).toNat + sz ≤ 2 ^ 64) :
-    ∃ σ', runBTR (straight addr
-        ([.load (temp addr (8 * sz)) (memOperand mode n off).1,
-          setZ (if signed = true then regsize else 8 * sz) t
-            (if signed = true then Expr.ext .sext regsize (.scalar (temp addr (8 * sz))) else .scalar (temp addr (8 * sz)))]
-         ++ (memOperand mode n off).2)) σ = .next σ' [s'.pc.toNat] ∧ Abs σ' s' :=
-  load_block_agrees σ s ha addr mode n t off sz regsize signed hk hreg hkr hsr hn ht hoff hmode hpc haddr s' hs hnowrap
+    (s' : A64.St) (hs : A64.step w s = .ok s')
+    (hnowrap : (immAddr w s).toNat + 1 <<< fld w 31 30 ≤ 2 ^ 64) :
+    ∃ σ', runBTR r σ = .next σ' [s'.pc.toNat] ∧ Abs σ' s' :=
+  ldrImm_agrees w addr r hc h25 h26 himm sg rs hdec h σ s ha hpc haddr s' hs hnowrap
+
+/-- STR/STRB/STRH (integer), immediate forms: memory after the IL store is the pseudocode's `Mem[]` write (LE and BE),
+    registers and NZCV are unchanged except the write-back of the base -/
+theorem lift_correct_strImm (w : BitVec 32) (addr : Nat) (r : BTR) (hc : fld w 29 27 = 0b111) (h25 : bit w 25 = false)
+    (h26 : bit w 26 = false) (himm : ImmForm w) (sg : Bool) (rs : Nat)
+    (hdec : A64.decodeSizeOpc (fld w 31 30) (fld w 23 22) = some (.store, sg, rs))
+    (h : lift w addr = some r) (σ : State) (s : A64.St) (ha : Abs σ s)
+    (hpc : s.pc = BitVec.ofNat 64 addr) (haddr : addr + 4 < 2 ^ 64)
+    (s' : A64.St) (hs : A64.step w s = .ok s')
+    (hnowrap : (immAddr w s).toNat + 1 <<< fld w 31 30 ≤ 2 ^ 64) :
+    ∃ σ', runBTR r σ = .next σ' [s'.pc.toNat] ∧ Abs σ' s' :=
+  strImm_agrees w addr r hc h25 h26 himm sg rs hdec h σ s ha hpc haddr s' hs hnowrap
 
 /-! ### non-vacuity -/
 
@@ -148,6 +203,18 @@ example : ∃ r, lift (0x2b030463#32) 0x1000 = some r := ⟨_, rfl⟩
 /-- `blr x30` (0xd63f03c0) -/
 example : fld (0xd63f03c0#32) 31 25 = 0b1101011 := by decide
 example : ∃ r, lift (0xd63f03c0#32) 0x1000 = some r := ⟨_, rfl⟩
+/-- `ldr x0, [x1, #8]!` (0xf8408c20) is an immediate-form load, `str w0, [sp, #4]` (0xb90007e0) an immediate-form store -/
+example : fld (0xf8408c20#32) 29 27 = 0b111 ∧ bit (0xf8408c20#32) 25 = false ∧ bit (0xf8408c20#32) 26 = false ∧
+    ImmForm (0xf8408c20#32) ∧ A64.decodeSizeOpc (fld (0xf8408c20#32) 31 30) (fld (0xf8408c20#32) 23 22) = some (.load, false, 64) := by
+  refine ⟨by decide, by decide, by decide, Or.inr ⟨by decide, by decide, by decide⟩, by decide⟩
+example : ∃ r, lift (0xf8408c20#32) 0x1000 = some r := ⟨_, rfl⟩
+example : A64.decodeSizeOpc (fld (0xb90007e0#32) 31 30) (fld (0xb90007e0#32) 23 22) = some (.store, false, 32) := by decide
+example : ∃ r, lift (0xb90007e0#32) 0x1000 = some r := ⟨_, rfl⟩
+/-- `b.hi` (0x54000048), `tbnz x4, #63` (0xb7f80044), `add x0, sp, w2, sxtw #2` (0x8b22cbe0), a `mov x0, #bitmask` (0xb208e3e0) -/
+example : ∃ r, lift (0x54000048#32) 0x1000 = some r := ⟨_, rfl⟩
+example : ∃ r, lift (0xb7f80044#32) 0x1000 = some r := ⟨_, rfl⟩
+example : ∃ r, lift (0x8b22cbe0#32) 0x1000 = some r := ⟨_, rfl⟩
+example : (lift (0xb208e3e0#32) 0x1000).isSome = true := by decide
 /-- the specification is not degenerate: `subs x0, x1, x2` with x1 = 1, x2 = 2 clears C (a borrow happened) … -/
 example : (A64.addWithCarry (1#64) (~~~(2#64)) true).2.2.2.1 = false := by decide
 /-- … and with x1 = 2, x2 = 1 sets it -/
